@@ -93,14 +93,17 @@ pub fn swap_execs(step: &Step) -> Result<(Vec<SwapExec>, BTreeMap<String, PoolVi
                 .iter()
                 .find(|a| attr(a, "action") == Some("execute_swap_operations"))
                 .ok_or("no execute_swap_operations event")?;
+            // one group of attributes per hop: a "swap" attribute ("in=…, out=…, <fees in any
+            // order>") followed, in any order and up to the next "swap", by the hop's pool_identifier
+            // and pool_reserves; attributes this harness does not know are skipped
             let mut k = 0usize;
             let mut i = 0usize;
             while i < ev.len() {
                 if ev[i].0 == "swap" {
-                    // "in=1000uom, out=990uusd, burn_fee=…, protocol_fee=…, swap_fee=…"
                     let mut cin = None;
                     let mut cout = None;
-                    for part in ev[i].1.split(", ") {
+                    for part in ev[i].1.split(',') {
+                        let part = part.trim();
                         if let Some(v) = part.strip_prefix("in=") {
                             cin = parse_coin(v);
                         } else if let Some(v) = part.strip_prefix("out=") {
@@ -109,15 +112,26 @@ pub fn swap_execs(step: &Step) -> Result<(Vec<SwapExec>, BTreeMap<String, PoolVi
                     }
                     let (din, offer) = cin.ok_or("unparsable hop input")?;
                     let (dout, ret) = cout.ok_or("unparsable hop output")?;
-                    let pid = ev.get(i + 1).filter(|a| a.0 == "pool_identifier").map(|a| a.1.clone()).ok_or("hop without pool_identifier")?;
-                    let res = ev.get(i + 2).filter(|a| a.0 == "pool_reserves").map(|a| parse_reserves(&a.1)).ok_or("hop without pool_reserves")?;
+                    let mut pid: Option<String> = None;
+                    let mut res: Option<Vec<(String, u128)>> = None;
+                    let mut j = i + 1;
+                    while j < ev.len() && ev[j].0 != "swap" {
+                        if ev[j].0 == "pool_identifier" && pid.is_none() {
+                            pid = Some(ev[j].1.clone());
+                        } else if ev[j].0 == "pool_reserves" && res.is_none() {
+                            res = Some(parse_reserves(&ev[j].1));
+                        }
+                        j += 1;
+                    }
+                    let pid = pid.ok_or("hop without pool_identifier")?;
+                    let res = res.ok_or("hop without pool_reserves")?;
                     let h = hops.get(k).ok_or("more hops in the events than in the message")?;
                     if h.pool != pid || h.denom_in != din || h.denom_out != dout {
                         return Err(format!("hop {k} of the events ({pid} {din}->{dout}) is not hop {k} of the message ({} {}->{})", h.pool, h.denom_in, h.denom_out));
                     }
                     apply("hop", &pid, &din, &dout, offer, ret, &res, &mut tracked, &mut infos)?;
                     k += 1;
-                    i += 3;
+                    i = j;
                 } else {
                     i += 1;
                 }
@@ -546,7 +560,7 @@ pub fn mon_c03(_sim: &Sim, step: &Step, st: &mut Stats) -> Result<(), String> {
     if !step.ok() {
         return Ok(());
     }
-    let (execs, tracked) = swap_execs(step).map_err(|e| format!("[C03] {}: cannot observe the executed swaps: {e}", step.describe()))?;
+    let Some((execs, tracked)) = observe(step, st, "C03") else { return Ok(()) };
     if matches!(step.kind, Kinded::Swap { .. } | Kinded::Route { .. } | Kinded::Provide { single: true, .. }) {
         crosscheck_tracked(step, &tracked).map_err(|e| format!("[C03] {}: {e}", step.describe()))?;
     }
@@ -562,11 +576,26 @@ pub fn mon_c03(_sim: &Sim, step: &Step, st: &mut Stats) -> Result<(), String> {
 // route comes back to a pool it has already traded on), the internal swap of a one-asset deposit -
 // delivered, against the exact solution of the invariant on the reserves that hop actually met
 
+/// The executed swaps are read from the response events (the only place where the hops of a route
+/// are visible one by one). If the events cannot be read - another attribute layout, say - that is
+/// a limitation of this harness, not a verdict: the check becomes inconclusive (exit 2).
+fn observe(step: &Step, st: &mut Stats, prop: &str) -> Option<(Vec<SwapExec>, BTreeMap<String, PoolView>)> {
+    match swap_execs(step) {
+        Ok(x) => Some(x),
+        Err(e) => {
+            if st.harness_panics.len() < 3 {
+                st.harness_panics.push(format!("[{prop}] {}: cannot observe the executed swaps from the response events: {e}", step.describe()));
+            }
+            None
+        }
+    }
+}
+
 pub fn mon_c19(_sim: &Sim, step: &Step, st: &mut Stats) -> Result<(), String> {
     if !step.ok() {
         return Ok(());
     }
-    let (execs, _) = swap_execs(step).map_err(|e| format!("[C19] {}: cannot observe the executed swaps: {e}", step.describe()))?;
+    let Some((execs, _)) = observe(step, st, "C19") else { return Ok(()) };
     let mut seen: BTreeSet<String> = BTreeSet::new();
     for x in execs.iter() {
         let revisit = !seen.insert(x.before.id.clone());
@@ -700,7 +729,7 @@ pub fn mon_c04(_sim: &Sim, step: &Step, st: &mut Stats) -> Result<(), String> {
         return Ok(());
     }
     let d = step.describe();
-    let (execs, tracked) = swap_execs(step).map_err(|e| format!("[C04] {d}: cannot observe the executed swaps: {e}"))?;
+    let Some((execs, tracked)) = observe(step, st, "C04") else { return Ok(()) };
     crosscheck_tracked(step, &tracked).map_err(|e| format!("[C04] {d}: {e}"))?;
     let collector = step.post_label(step.pre.config.fee_collector_addr.as_str());
     let recv = match &receiver {
